@@ -10,15 +10,14 @@ namespace {
 // projection of one side: every query answer + the projected block graph with payload content ids
 long long proj(NifFile* nif, ContentIds& ids) {
 	if (!nif) return -1;
-	ContentIds q;
-	std::string b = battery(*nif, q, true);
+	// (one id table for the whole run: an id stands for one content, so a changed answer or payload gives another id)
+	std::string b = battery(*nif, ids, true);
 	UidMap um;
 	ProjOpts po;
 	po.uids = false;
 	po.cids = true;
 	po.strs = true;
-	ContentIds c2;
-	std::string g = project(*nif, um, po, &c2);
+	std::string g = project(*nif, um, po, &ids);
 	return ids.of(b + "|" + g);
 }
 
@@ -138,6 +137,8 @@ int cmdRun(int argc, char** argv) {
 			if (A->Load(samplePath(fn)) != 0) return;
 			attachMeshes(*A);
 			ContentIds ids;
+			// some accessors convert cached data lazily (partition strips to triangles): let that settle before observing
+			proj(A.get(), ids);
 			size_t step = 0;
 			for (auto& act : h.a) {
 				long long bA = proj(A.get(), ids), bB = proj(B.get(), ids);
@@ -201,5 +202,18 @@ int cmdRun(int argc, char** argv) {
 	printf("{\"behaviours\":%zu,\"runs\":%zu,\"crashes\":%zu}\n", hists.size(), n, crashes);
 	return 0;
 }
+int cmdDbg(int argc, char** argv) {
+	NifFile a;
+	if (a.Load(samplePath(argc > 1 ? argv[1] : "TestNifFile_SF.nif")) != 0) return 3;
+	attachMeshes(a);
+	for (auto s : a.GetShapes()) {
+		std::vector<Triangle> t;
+		bool ok = s->GetTriangles(t);
+		auto geo = dynamic_cast<BSGeometry*>(s);
+		printf("%s %s meshes=%d ok=%d tris=%zu nv=%u\n", s->name.get().c_str(), s->GetBlockName(), geo ? (int) geo->MeshCount() : -1, (int) ok, t.size(), (unsigned) s->GetNumVertices());
+	}
+	return 0;
+}
 Reg r1("c11-run", cmdRun);
+Reg r9("c11-dbg", cmdDbg);
 } // namespace
